@@ -3,15 +3,18 @@ import Got.Model.Delayed
 /-
 drv_delayed (monitor mode): input line = `<script>\t<impl observation>`; answer `ok`, `ok tie-order` or `reject <model line>`.
 
-script:  c10 end <t> Q <cap0>:<start0> <cap1>:<start1> ... | <q> <d> <t> ; <q> <d> <t> ; ...
+script:  c10 end <t> Q <cap0>:<start0>[:<close0>] <cap1>:<start1>[:<close1>] ... | <q> <d> <t> ; <q> <d> <t> ; ...
   one sequential sender issues Queue(q).SendDelayed(d ns) at virtual instant t (ns, relative to the scenario start,
   which is a tick instant of the global delayed queue); queue i has capacity cap_i and a consumer that starts
-  receiving at instant start_i (before that the queue fills up).  Observation = per queue the arrival sequence
+  receiving at instant start_i (before that the queue fills up); with a third field the queue's close channel is
+  closed at instant close_i.  Observation = per queue the arrival sequence
   `idx@t` seen by the consumer, up to instant `end`.
 
 The driver explores the timed executions of Got.Model.Delayed (every transition through `Delayed.step`,
 maximal progress).  The model is nondeterministic only where the loop's select has both a pending tick and a
-pending request; both branches are explored and the observation must equal one of the outcomes.
+pending request; both branches are explored and the observation must equal one of the outcomes.  The second
+nondeterminism — SendCallback on a CLOSED target queue that has room may take either select branch — is resolved from
+the observation (the request arrived or not), as in drv_taskq.
 -/
 namespace Got.Drv.Delayed
 open Got.Model.Delayed Got.Drv
@@ -27,7 +30,9 @@ structure Scn where
   endT : Nat
   caps : Array Nat
   cstart : Array Nat
+  closeAt : Array (Option Nat)
   reqs : Array RSpec
+  arrived : Option (List Nat) := none   -- hints: request ids that arrived in the implementation's observation
 
 structure Sim where
   s : State
@@ -48,6 +53,11 @@ def readyQueue (sc : Scn) (sim : Sim) : Option Nat :=
 partial def settle (sc : Scn) (sim : Sim) : List Sim :=
   if sim.err then [sim] else
   let s := sim.s
+  match (List.range sc.caps.size).find? (fun i => match sc.closeAt[i]! with
+      | some t => decide (t ≤ s.now) && !s.qclosed i
+      | none => false) with
+  | some i => settle sc (doStep sim (.closeQ i))
+  | none =>
   if s.now = s.nextTick then settle sc (doStep sim .tickFire)
   else if s.senders.isEmpty && decide (sim.cursor < sc.reqs.size) && decide (sc.reqs[sim.cursor]!.at_ ≤ s.now) then
     let r := sc.reqs[sim.cursor]!
@@ -66,7 +76,16 @@ partial def settle (sc : Scn) (sim : Sim) : List Sim :=
         else if !s.reqChan.isEmpty then settle sc (doStep sim .pushReq)
         else [sim]
       | .tickLoop _ => settle sc (doStep sim .tickTest)
-      | .forwarding _ _ => if loopEnabled s then settle sc (doStep sim .forward) else [sim]
+      | .forwarding _ r =>
+        let room := decide ((s.q r.queue).length < s.qcap r.queue)
+        let closed := s.qclosed r.queue
+        if room && closed then
+          match sc.arrived with
+          | some arr => if arr.contains r.id then settle sc (doStep sim .forward) else settle sc (doStep sim .forwardDrop)
+          | none => settle sc (doStep sim .forward) ++ settle sc (doStep sim .forwardDrop)
+        else if room then settle sc (doStep sim .forward)
+        else if closed then settle sc (doStep sim .forwardDrop)
+        else [sim]
 
 def minOpt (a b : Option Nat) : Option Nat :=
   match a, b with
@@ -79,7 +98,10 @@ def nextInstant (sc : Scn) (sim : Sim) : Option Nat :=
   let s := sim.s
   let tSend := if s.senders.isEmpty && sim.cursor < sc.reqs.size then some sc.reqs[sim.cursor]!.at_ else none
   let tCons := sc.cstart.foldl (fun acc t => if t > s.now then minOpt acc (some t) else acc) none
-  minOpt (some s.nextTick) (minOpt tSend tCons)
+  let tClose := sc.closeAt.foldl (fun acc t => match t with
+    | some t => if t > s.now then minOpt acc (some t) else acc
+    | none => acc) none
+  minOpt (some s.nextTick) (minOpt tSend (minOpt tCons tClose))
 
 def render (sc : Scn) (sim : Sim) : String :=
   let parts := (List.range sc.caps.size).map (fun i =>
@@ -110,8 +132,11 @@ def parseScript (line : String) : Option Scn :=
     | "c10" :: "end" :: e :: "Q" :: qs =>
       let qp := qs.filterMap (fun w => match w.splitOn ":" with
         | [c, s] => match c.toNat?, s.toNat? with
-          | some c, some s => some (c, s)
+          | some c, some s => some (c, s, (none : Option Nat))
           | _, _ => none
+        | [c, s, cl] => match c.toNat?, s.toNat?, cl.toNat? with
+          | some c, some s, some cl => some (c, s, some cl)
+          | _, _, _ => none
         | _ => none)
       let ops := ((body.splitOn " ; ").map words).filter (· ≠ [])
       let reqs := ops.filterMap (fun w => match w with
@@ -123,7 +148,8 @@ def parseScript (line : String) : Option Scn :=
       match e.toNat? with
       | some e =>
         let reqs := reqs.zipIdx.map (fun (x : (Nat × Int × Nat) × Nat) => ({ idx := x.2, q := x.1.1, d := x.1.2.1, at_ := x.1.2.2 } : RSpec))
-        some { endT := e, caps := (qp.map (·.1)).toArray, cstart := (qp.map (·.2)).toArray, reqs := reqs.toArray }
+        some { endT := e, caps := (qp.map (·.1)).toArray, cstart := (qp.map (·.2.1)).toArray,
+               closeAt := (qp.map (·.2.2)).toArray, reqs := reqs.toArray }
       | none => none
     | _ => none
   | _ => none
@@ -158,6 +184,11 @@ def stepLine (_ : Unit) (line : String) : Unit × String :=
   match parseScript script with
   | none => ((), "reject bad-script")
   | some sc =>
+    -- request ids that arrived according to the observation (hints for select on a closed queue with room)
+    let arrived := (words impl).filterMap (fun w => match w.splitOn "@" with
+      | [i, _] => i.toNat?
+      | _ => none)
+    let sc := if impl.isEmpty then sc else { sc with arrived := some arrived }
     let (outs, complete) := simulate sc
     if impl.isEmpty then ((), " || ".intercalate outs)
     else if outs.contains impl then ((), "ok")
